@@ -365,8 +365,27 @@ pub fn run_blob(scratch: &Path, out: &mut Out, tier: &str, seed: u64) {
         // not valid UTF-8: in both, a blob must sit at <root>/cas/<path derived from its hash>
         let odd = scratch.join(std::ffi::OsStr::from_bytes(b"db-\xe9-\xff"));
         let _ = std::fs::remove_dir_all(&odd);
-        for (tag, dir, pre) in [("reopen-pre", root.clone(), true), ("non-utf8-root", odd.clone(), false)] {
-            let cas: Cas<u32> = Cas::open(&dir, Config { pre_create_cas_dirs: pre, ..Default::default() }).unwrap();
+        // (c) a first open with the pre-created tree that FAILS half way (a stray file sits where cas/80 should be created),
+        // the obstacle is removed, the store is opened again: whatever the first attempt left behind, every blob of the
+        // second session must sit at its path (also those whose directory the first attempt never reached)
+        let half = scratch.join("db-half-precreated");
+        let _ = std::fs::remove_dir_all(&half);
+        std::fs::create_dir_all(half.join("cas")).unwrap();
+        std::fs::write(half.join("cas").join("80"), b"in the way").unwrap();
+        let first = Cas::<u32>::open(&half, Config { pre_create_cas_dirs: true, ..Default::default() });
+        let first_failed = first.is_err();
+        drop(first);
+        let _ = std::fs::remove_file(half.join("cas").join("80"));
+        for (tag, dir, pre) in [("reopen-pre", root.clone(), true), ("non-utf8-root", odd.clone(), false),
+                                (if first_failed { "after-interrupted-precreate" } else { "after-precreate-over-stray-file" }, half.clone(), true)] {
+            let cas: Cas<u32> = match Cas::open(&dir, Config { pre_create_cas_dirs: pre, ..Default::default() }) {
+                Ok(c) => c,
+                Err(_) => {
+                    // the open itself failing is a result, not a harness problem
+                    out.emit(&json!({"ev": "blobbatch", "n": 64, "bad": 64, "first_bad": format!("{tag}:open-failed")}));
+                    continue;
+                }
+            };
             let mut bad = 0;
             for i in 0..64u32 {
                 let content: Vec<u8> = rnd(&mut s).to_le_bytes().iter().chain(&(i as u64).to_le_bytes()).copied().collect();
@@ -385,6 +404,7 @@ pub fn run_blob(scratch: &Path, out: &mut Out, tier: &str, seed: u64) {
             out.emit(&json!({"ev": "blobbatch", "n": 64, "bad": bad, "first_bad": tag}));
             drop(cas);
         }
+        let _ = std::fs::remove_dir_all(&half);
         let _ = std::fs::remove_dir_all(&odd);
     }
     let _ = std::fs::remove_dir_all(&root);
@@ -706,6 +726,18 @@ pub fn run_codec(scratch: &Path, out: &mut Out, tier: &str, seed: u64) {
     segs.push([frame(1, &p1, true), frame(2, &p2, false)].concat());
     segs.push([frame(1, &p1, true), frame(0, &p2, true)].concat());
     segs.push([frame(1, &p1, true), frame(5, &[], true)].concat());
+    // extreme values of the length field (header size + length overflows u32 for the top 44 values), alone and behind a
+    // valid record, with a few / no payload bytes behind
+    for lenf in [0xFFFF_FFFFu32, 0xFFFF_FFD4, 0xFFFF_FFD3, 0xFFFF_FFE0, 0x8000_0000, 0x7FFF_FFFF, 0x0100_0000, 0x0001_0000, 0xFFFF] {
+        for tail in [0usize, 3, 45] {
+            let mut h = 9u64.to_le_bytes().to_vec();
+            h.extend(*blake3::hash(b"x").as_bytes());
+            h.extend(lenf.to_le_bytes());
+            h.extend(vec![7u8; tail]);
+            segs.push(h.clone());
+            segs.push([frame(1, &p1, true), h].concat());
+        }
+    }
     for cut in 0..base.len() {
         if !q || cut % 3 == 0 {
             segs.push(base[..cut].to_vec());
